@@ -143,7 +143,7 @@ theorem tuninv_step {s s' : State} (a : Action) (he : EverInv s) (hi : TunInv s)
       refine ⟨fun d => ?_⟩
       have hd := hi.loc d
       obtain ⟨h1, h2, h3⟩ := hd
-      constructor <;> (try simp only [setConn]) <;> (repeat' split) <;>
+      constructor <;> (try simp only [setConn, sweepClose]) <;> (repeat' split) <;>
         simp_all [selfClosed, pastDec, tunPath]
     · simp at h
   | _ =>
